@@ -10,18 +10,19 @@ ASSUMPTIONS = [
 
 VAL = Cls('NARROW', minus='\\')
 CRIT = Enum("a'\\\" ")      # apostrophe, backslash, double quote, blank: the characters the quoting helpers care about
-KEYS = ['k', 'key_2', 'note2', 'Pk']
+KEYS = ['k', 'key_2', 'note2', 'Pk', 'Ref', 'REF']      # Ref / REF: keys are stored exactly; only the lower-case 'ref:' is the inline reference keyword
+KEYWORD_PREFIXED = ('note2', 'Pk')
 
 
 def document(layout, K=1, fix=None, crit=False):
     """layout: 'one' | 'multi' ; presence / position selectors symbolic"""
-    args = [('tp', IntRange(0, 2)), ('cp', IntRange(0, 2)), ('cpos', IntRange(0, 2)), ('tpos', IntRange(0, 2)), ('k1', IntRange(0, 3))] + \
+    args = [('tp', IntRange(0, 2)), ('cp', IntRange(0, 2)), ('cpos', IntRange(0, 2)), ('tpos', IntRange(0, 2)), ('k1', IntRange(0, 5))] + \
         hole_args('v', K, CRIT if crit else VAL)
 
     def build(a):
         v = text_of(a, 'v', K)
         k1 = KEYS[a['k1']]
-        k2 = KEYS[(a['k1'] + 1) % 4]
+        k2 = KEYS[(a['k1'] + 1) % 6]
         cprops = [(k1, v), (k2, 'second')][:a['cp']]
         tprops = [(k2, v), (k1, 'x y')][:a['tp']]
         ordinary = ['pk', "note: 'cn'", 'default: 5']
@@ -39,12 +40,12 @@ def document(layout, K=1, fix=None, crit=False):
                      (('col', 'id', ('str', 'int'), True, False, False, False, ('int', 5), 'cn', None, tuple(cprops)),
                       ('col', 'other', ('str', 'text'), True, True, False, False, ('none',), '', None, ())),
                      (('idx', (('col', 'id'),), None, True, None, False, '', None),))
-        return doc, (None, (), (exp_table,), (), (), ()), bool(cprops or tprops)
+        return doc, (None, (), (exp_table,), (), (), ()), bool(cprops or tprops), [k for k, _ in cprops + tprops]
 
     def body(a):
         import pyparsing
-        doc, exp, has = build(a)
-        if region_active('c15_key_with_keyword_prefix') and has and (a['k1'] >= 1):
+        doc, exp, has, used = build(a)
+        if region_active('c15_key_with_keyword_prefix') and any(k in KEYWORD_PREFIXED for k in used):
             return ''        # keys note2 / Pk (a keyword is a prefix of the key): open finding
         # option on
         try:
@@ -168,7 +169,7 @@ def instances(tier):
     quick = tier == 'quick'
     T1 = 280 if quick else 3000
     out = []
-    fixes = [{'cpos': 0, 'tpos': 1, 'k1': 0}, {'cpos': 2, 'tpos': 2, 'k1': 0}, {'cpos': 1, 'tpos': 0, 'k1': 3}]
+    fixes = [{'cpos': 0, 'tpos': 1, 'k1': 0}, {'cpos': 2, 'tpos': 2, 'k1': 0}, {'cpos': 1, 'tpos': 0, 'k1': 3}, {'cpos': 1, 'tpos': 1, 'k1': 4, 'tp': 1}]
     for j, f in enumerate(fixes):
         for layout in ('one', 'multi'):
             if quick and layout == 'multi' and j != 0:
